@@ -96,6 +96,32 @@ TEXT_THOROUGH = (TEXT_QUICK +
                  sorted(k for k in TEXTS if k.startswith('two-')))
 
 
+# contents on which a comparison option can act
+OPT_TEXTS = {
+    'ws-lead': '\n  \nbody\n',
+    'ws-lead-sp': '   \nx\n',
+    'indent': '  a\n\tb\n',
+    'ws-trail': 'body\n   \n',
+    'nl3': 'body\n\n\n',
+    'nl4-nofinal': 'body\n\n\n\nx',
+    'trail-sp': 'a  \nb\t\n',
+    'both-ws': '\n \n a \n \n\n\n',
+    'blank-mid': 'a\n\nb\n',
+    'ign': 'x IGNORE y\nkeep\n',
+    'pat': 'took 12 ms\nrow 3\n',
+    'rem': 'a\nREMOVE me\nb\n',
+    'hash': '# comment\na\n# c2\n',
+    'perm': 'b\na\nc\n',
+    'only-ws': '   \n',
+    'only-nl3': '\n\n\n',
+    'all-removed': 'REMOVE 1\nREMOVE 2\n',
+    'ign-pat-mix': 'IGNORE 12\n#REMOVE 7\n',
+}
+TEXTS.update(OPT_TEXTS)
+OPT_CONTENTS = list(OPT_TEXTS) + ['empty', 'nofinal', 'in-ff', 'mid-ls',
+                                  'end-crlf', 'blank2', 'spaces', 'mixed']
+
+
 def text_feature(t):
     """Root-cause class of a text content (for violation signatures)."""
     if any(c in t for c in SPLITLINES_ONLY):
@@ -116,6 +142,14 @@ def text_feature(t):
         return 'no-final-newline'
     if len(t) > 1000:
         return 'long'
+    lines = t.split('\n')
+    if lines[0].strip() == '' and t.strip():
+        return 'leading-blank-line'
+    if t.endswith('\n\n') or (len(lines) > 1 and lines[-2].strip() == ''
+                               and lines[-1] == ''):
+        return 'trailing-blank-lines'
+    if any(l != l.strip() for l in lines):
+        return 'line-edge-whitespace'
     return 'plain'
 
 
@@ -140,7 +174,8 @@ FRAME_QUICK = ['int', 'float-nan', 'obj-none', 'bool', 'dt-ns', 'zero-rows',
                'two-col']
 FRAME_THOROUGH = FRAME_QUICK + ['Int64', 'str', 'cat', 'dt-s', 'dt-tz',
                                 'boolean', 'uint8', 'f32', 'index-named',
-                                'unicode-col', 'float-inf', 'date-none']
+                                'unicode-col', 'float-inf', 'date-none',
+                                'cat-int']
 
 
 def make_frame(fid):
@@ -190,6 +225,8 @@ def make_frame(fid):
                                             dtype='str')})
     if fid == 'cat':
         return pd.DataFrame({'a': pd.Categorical(['a', 'B1', 'a'])})
+    if fid == 'cat-int':
+        return pd.DataFrame({'a': pd.Categorical([1, 2, 1])})
     if fid == 'uint8':
         return pd.DataFrame({'a': np.array([0, 1, 255], dtype='uint8')})
     if fid == 'f32':
@@ -225,19 +262,110 @@ TSHORT = {'string': 's', 'file': 'f', 'files': 'm', 'binary': 'b',
           'frame': 'd'}
 
 
-def ref_names(atype, kind):
-    k = kname(kind)
-    if atype == 'string':
-        return ['s_%s.txt' % k]
-    if atype == 'file':
-        return ['f_%s.txt' % k]
-    if atype == 'files':
-        return ['m1_%s.txt' % k, 'm2_%s.txt' % k]
-    if atype == 'binary':
-        return ['b_%s.bin' % k]
+EXT = {'string': '.txt', 'file': '.txt', 'files': '.txt', 'binary': '.bin',
+       'frame': '.parquet'}
+# reference-name alphabet: how the name is spelled (same for every type),
+# plus, per type, the other extensions the API tells apart by extension
+NAME_VARIANTS = ['lower', 'upper', 'mixed', 'twodots', 'subdir', 'unicode',
+                 'noext']
+NAME_VARIANTS_FRAME = NAME_VARIANTS + ['csv', 'CSV', 'txt']
+NAME_VARIANTS_TEXT = NAME_VARIANTS + ['csv', 'dat']
+# for frames only these are "a DataFrame saved as parquet" (the statement)
+PARQUET_VARIANTS = ('lower', 'upper', 'mixed', 'twodots', 'subdir', 'unicode')
+
+
+def name_variants(atype):
     if atype == 'frame':
-        return ['d_%s.parquet' % k]
-    raise KeyError(atype)
+        return NAME_VARIANTS_FRAME
+    if atype == 'binary':
+        return NAME_VARIANTS
+    return NAME_VARIANTS_TEXT
+
+
+def spell(stem, ext, variant):
+    if variant == 'lower':
+        return stem + ext
+    if variant == 'upper':
+        return stem.upper() + ext.upper()
+    if variant == 'mixed':
+        return stem + ext[:2].upper() + ext[2:]       # .Parquet .Txt .Bin
+    if variant == 'twodots':
+        return stem + '.v1' + ext
+    if variant == 'subdir':
+        return 'sub/' + stem + ext
+    if variant == 'unicode':
+        return stem + ' \u00e9 \u65e5' + ext
+    if variant == 'noext':
+        return stem
+    if variant in ('csv', 'txt', 'dat'):
+        return stem + '.' + variant
+    if variant == 'CSV':
+        return stem.upper() + '.CSV'
+    raise KeyError(variant)
+
+
+def ref_names(atype, kind, variant='lower'):
+    k = kname(kind)
+    if atype == 'files':
+        stems = ['m1_%s' % k, 'm2_%s' % k]
+    else:
+        stems = ['%s_%s' % (TSHORT[atype], k)]
+    return [spell(st, EXT[atype], variant) for st in stems]
+
+
+# ---- comparison options: each alone at one non-default value
+
+def _drop_hash_lines(lines):
+    return [l for l in lines if not l.startswith('#')]
+
+
+TEXT_OPTIONS = {
+    'none': {},
+    'lstrip': {'lstrip': True},
+    'rstrip': {'rstrip': True},
+    'strip': {'lstrip': True, 'rstrip': True},
+    'ignore_substrings': {'ignore_substrings': ['IGNORE']},
+    'ignore_patterns': {'ignore_patterns': [r'\d+']},
+    'remove_lines': {'remove_lines': ['REMOVE']},
+    'ignore_lines': {'ignore_lines': ['REMOVE']},
+    'preprocess': {'preprocess': _drop_hash_lines},
+    'max_permutation_cases': {'max_permutation_cases': 2},
+}
+FRAME_OPTIONS = ['none', 'check_data=False', 'check_data=list',
+                 'check_types=False', 'check_types=list', 'check_order=False',
+                 'check_order=list', 'precision', 'sortby=list',
+                 'sortby=True', 'condition', 'type_matching=medium',
+                 'type_matching=permissive']
+
+
+def frame_options(optid, df):
+    first = [list(df.columns)[0]]
+    if optid == 'none':
+        return {}
+    if optid.endswith('=False'):
+        return {optid.split('=')[0]: False}
+    if optid.endswith('=list'):
+        return {optid.split('=')[0]: first}
+    if optid == 'sortby=True':
+        return {'sortby': True}
+    if optid == 'precision':
+        return {'precision': 2}
+    if optid == 'condition':
+        return {'condition': lambda d: d[first[0]].notna()}
+    if optid.startswith('type_matching='):
+        return {'type_matching': optid.split('=')[1]}
+    raise KeyError(optid)
+
+
+def option_ids(atype):
+    if atype in ('string', 'file', 'files'):
+        ids = list(TEXT_OPTIONS)
+        if atype != 'string':
+            ids.append('encoding')
+        return ids
+    if atype == 'frame':
+        return list(FRAME_OPTIONS)
+    return ['none']
 
 
 def second_text(t):
@@ -252,7 +380,9 @@ KIND_FORMS_Q = (['table'], ['graph'], ['table', 'graph'], ['table,graph'])
 KIND_FORMS_T = KIND_FORMS_Q + (['graph', 'table'], ['graph,table'],
                                ['table', 'table'], ['table,graph', 'graph'])
 SIDE_TOKENS = ('-1', '--tagged', '-0', '--istagged', '-v', '-q', '-f',
-               '--wquiet')
+               '--wquiet', '-kTestWidget')
+# unittest's -k takes a value, which may be attached and contain W / 1 / 0
+SIDE_TOKENS_T = SIDE_TOKENS + ('-kcase1', '-kcase0')
 CLUSTERS = ('-1W', '-W1', '-vW', '-Wv', '-0W', '-W0', '-1vW', '-fW1')
 
 
@@ -262,10 +392,11 @@ def argv_space(tier, maxside=None):
     forms = KIND_FORMS_T if tier == 'thorough' else KIND_FORMS_Q
     if maxside is None:
         maxside = 2 if tier == 'thorough' else 1
+    toks = SIDE_TOKENS_T if tier == 'thorough' else SIDE_TOKENS
     sides = [[]]
     for n in range(1, maxside + 1):
-        sides += [list(s) for s in itertools.product(SIDE_TOKENS, repeat=n)]
-    suffixes = [[]] + [[t] for t in SIDE_TOKENS] + [['T']]
+        sides += [list(s) for s in itertools.product(toks, repeat=n)]
+    suffixes = [[]] + [[t] for t in toks] + [['T']]
     seen = set()
 
     def emit(a):
@@ -319,6 +450,10 @@ def argv_context(tokens):
     of token stands before / after it."""
     core = None
     idx = None
+    if any(t.startswith('-k') for t in tokens):
+        # an option value attached to its option (-kPATTERN): one root cause
+        # whatever else is on the command line
+        return ('attached-option-value', 'any')
     for i, t in enumerate(tokens):
         if t in W_FLAGS or t in ALL_FLAGS or t in CLUSTERS:
             core, idx = t, i
@@ -357,6 +492,8 @@ def _cls(t):
         return 'long'
     if t == 'T':
         return 'name'
+    if t.startswith('-k'):
+        return 'attached-value'
     return t
 
 
@@ -502,6 +639,8 @@ class World(object):
     def reset_disk(self):
         for name in ('ref', 'ref_table', 'tmp', 'probe', 'probe_table'):
             seams.empty_dir(self.d[name])
+        for name in ('ref', 'ref_table'):
+            os.mkdir(os.path.join(self.d[name], 'sub'))
 
     # ---- instances
 
@@ -559,11 +698,12 @@ class World(object):
             return e
         return None
 
-    def do_assert(self, inst, atype, kind, actual):
+    def do_assert(self, inst, atype, kind, actual, names, opts=None):
         """actual: dict with keys per type (built by Case).  Returns
         ('pass'|'fail'|'error:T', exception-or-None)."""
         kw = {} if kind is None else {'kind': kind}
-        names = ref_names(atype, kind)
+        if opts:
+            kw.update(opts)
         try:
             if atype == 'string':
                 inst.assertStringCorrect(actual['text'], names[0], **kw)
@@ -575,8 +715,11 @@ class World(object):
             elif atype == 'binary':
                 inst.assertBinaryFileCorrect(actual['bpath'], names[0], **kw)
             elif atype == 'frame':
-                inst.assertDataFrameCorrect(make_frame(actual['fid']),
-                                            names[0], **kw)
+                df = make_frame(actual['fid'])
+                if opts and '__frame__' in kw:
+                    kw.pop('__frame__')
+                    kw.update(frame_options(opts['__frame__'], df))
+                inst.assertDataFrameCorrect(df, names[0], **kw)
             else:
                 raise KeyError(atype)
         except AssertionError as e:
@@ -619,10 +762,19 @@ class Content(object):
     files that hold them, the 3-valued sameness and the classification of
     what a reference file holds."""
 
-    def __init__(self, world, atype, ida, idb):
+    def __init__(self, world, atype, ida, idb, variant='lower', optid='none'):
         self.w = world
         self.atype = atype
         self.ids = {'A': ida, 'B': idb}
+        self.variant = variant
+        self.optid = optid
+        if atype == 'frame':
+            self.opts = {} if optid == 'none' else {'__frame__': optid}
+        elif optid == 'encoding':
+            self.opts = ({'encodings': ['utf-8', 'utf-8']} if atype == 'files'
+                         else {'encoding': 'utf-8'})
+        else:
+            self.opts = dict(TEXT_OPTIONS.get(optid, {}))
         self.actual = {}
         self.cache = {}
         seams.empty_dir(world.d['act'])
@@ -651,10 +803,13 @@ class Content(object):
                 a['fp'] = frame_fingerprint(make_frame(cid))
             self.actual[x] = a
 
+    def names(self, kind):
+        return ref_names(self.atype, kind, self.variant)
+
     def all_refs(self):
         out = []
         for k in KINDS:
-            for n in ref_names(self.atype, k):
+            for n in self.names(k):
                 out.append((n, k))
         return out
 
@@ -667,10 +822,10 @@ class Content(object):
         except FileNotFoundError:
             return None
         h = hashlib.sha1(raw).hexdigest()[:12]
-        key = (name.split('_')[0], h)
+        second = os.path.basename(name).lower().startswith('m2_')
+        key = (second, h)
         if key in self.cache:
             return self.cache[key]
-        second = name.startswith('m2_')
         hits = ''
         for x in ('A', 'B'):
             a = self.actual[x]
@@ -782,13 +937,24 @@ def op_sig(op, fine=True):
 class Explorer(object):
     """Runs histories for one (type, content pair, via)."""
 
-    def __init__(self, world, R, atype, ida, idb, via, subinfo):
+    def __init__(self, world, R, atype, ida, idb, via, subinfo,
+                 variant='lower', optid='none'):
         self.w = world
         self.R = R
         self.atype = atype
         self.via = via
-        self.content = Content(world, atype, ida, idb)
+        self.content = Content(world, atype, ida, idb, variant, optid)
         self.subinfo = subinfo
+        # discriminators appended to signatures of this case
+        self.tail = ''
+        if optid != 'none':
+            self.tail += ':opt=' + optid
+        if variant != 'lower':
+            self.tail += ':name=' + variant
+        # the follow-up verdict is only demanded where the statement speaks:
+        # frames saved as parquet (any spelling of the extension)
+        self.followup_specified = not (atype == 'frame' and
+                                       variant not in PARQUET_VARIANTS)
 
     # -- build a state from its history on a clean sandbox (no checking)
     def build(self, hist):
@@ -799,13 +965,16 @@ class Explorer(object):
             if op[0] == 'assert':
                 inst = w.instance(self.via)
                 w.do_assert(inst, self.atype, op[1],
-                            self.content.actual[op[2]])
+                            self.content.actual[op[2]],
+                            self.content.names(op[1]), self.content.opts)
             else:
                 w.do_table_op(op)
 
     def viol(self, sig, clause, hist, op, **detail):
         d = {'type': self.atype, 'via': self.via, 'history': hist, 'op': op,
-             'contents': self.content.ids}
+             'contents': self.content.ids, 'options': self.content.optid,
+             'reference_names': self.content.names(
+                 op[1] if op and op[0] == 'assert' else None)}
         d.update(detail)
         self.R.viol(sig, clause, d, dict(self.subinfo, history=hist, op=op))
 
@@ -878,7 +1047,7 @@ class Explorer(object):
 
         # ---- an assertion
         kind, x = op[1], op[2]
-        refs = ref_names(self.atype, kind)
+        refs = c.names(kind)
         mode, regen_files, passes = spec.assertion_expect(
             ms.table, ms.files, refs, kind, x, c.same)
         seams.age(w.ref_roots)
@@ -887,7 +1056,8 @@ class Explorer(object):
         inst = w.instance(self.via)
         w.monitor.start(w.ref_roots)
         with contextlib.redirect_stdout(sink), contextlib.redirect_stderr(sink):
-            outcome, exc = w.do_assert(inst, self.atype, kind, c.actual[x])
+            outcome, exc = w.do_assert(inst, self.atype, kind, c.actual[x],
+                                       refs, c.opts)
         log = w.monitor.stop()
         after = seams.snapshot(w.ref_roots)
         diff = seams.snapshot_diff(before, after)
@@ -913,22 +1083,29 @@ class Explorer(object):
             if touched:
                 what = sorted(set([d[0] for d in diff] +
                                   [e[0] for e in log]))
-                self.viol('normal-mode-touches-reference:%s:%s:%s' % (
-                    tname, outcome.split(':')[0], '+'.join(what)),
+                self.viol('normal-mode-touches-reference:%s:%s:%s%s' % (
+                    tname, outcome.split(':')[0], '+'.join(what), self.tail),
                     'normal-mode-never-touches-reference', hist, op,
                     outcome=outcome, audit=log[:6], snapshot_diff=diff[:6],
                     model_table=list(spec.table_key(ms.table)),
                     real_table=w.raw_table())
                 return None, 'normal-touched'
+            if passes is True and outcome != 'pass' and \
+                    not self.followup_specified:
+                R.unspec += 1
+                passes = None
             if passes is True and outcome != 'pass':
-                self.viol('regenerated-reference-fails:%s:%s:%s' % (
-                    tname, c.cause(x, refs[0], kind), outcome),
+                cause = c.cause(x, refs[0], kind)
+                self.viol('regenerated-reference-fails:%s:%s:%s%s' % (
+                    tname, cause, outcome,
+                    '' if cause.startswith('dtype[') else self.tail),
                     'regenerated-reference-passes',
                     hist, op, outcome=outcome, exception=repr(exc)[:600],
                     disk=list(disk_before))
                 return None, 'normal-wrong-outcome'
             if passes is False and outcome == 'pass':
-                self.viol('normal-mode-passes-on-wrong-reference:%s' % tname,
+                self.viol('normal-mode-passes-on-wrong-reference:%s%s'
+                          % (tname, self.tail),
                           'normal-mode-compares', hist, op, outcome=outcome,
                           disk=list(disk_before))
                 return None, 'normal-wrong-outcome'
@@ -939,20 +1116,23 @@ class Explorer(object):
         else:
             # ---------------- regeneration mode
             if exc is not None:
-                self.viol('regeneration-raises:%s:%s' % (
-                    tname, type(exc).__name__), 'regeneration-writes-reference',
+                self.viol('regeneration-raises:%s:%s%s' % (
+                    tname, type(exc).__name__, self.tail),
+                    'regeneration-writes-reference',
                     hist, op, outcome=outcome, exception=repr(exc)[:600],
                     kind=kname(kind))
                 return None, 'regen-raises'
             stray = [d for d in diff if d[1] not in own]
             if stray:
-                self.viol('regeneration-touches-other-reference:%s' % tname,
+                self.viol('regeneration-touches-other-reference:%s%s'
+                          % (tname, self.tail),
                           'only-the-selected-reference', hist, op,
                           snapshot_diff=diff[:6], own=sorted(own))
                 return None, 'regen-stray'
             changed = set(d[1] for d in diff)
             if not own <= changed:
-                self.viol('regeneration-does-not-write:%s' % tname,
+                self.viol('regeneration-does-not-write:%s%s'
+                          % (tname, self.tail),
                           'regeneration-writes-reference', hist, op,
                           snapshot_diff=diff[:6], own=sorted(own))
                 return None, 'regen-not-written'
@@ -974,19 +1154,27 @@ class Explorer(object):
             w.monitor.start(w.ref_roots)
             with contextlib.redirect_stdout(sink), \
                     contextlib.redirect_stderr(sink):
-                out2, exc2 = w.do_assert(inst2, self.atype, kind, c.actual[x])
+                out2, exc2 = w.do_assert(inst2, self.atype, kind, c.actual[x],
+                                         refs, c.opts)
             log2 = [e for e in w.monitor.stop() if e[1] in known]
             d2 = [d for d in seams.snapshot_diff(
                 b2, seams.snapshot(w.ref_roots)) if d[1] in known]
             R.ev()
             if log2 or d2:
-                self.viol('followup-touches-reference:%s' % tname,
+                self.viol('followup-touches-reference:%s%s'
+                          % (tname, self.tail),
                           'normal-mode-never-touches-reference', hist, op,
                           audit=log2[:6], snapshot_diff=d2[:6], outcome=out2)
                 return None, 'followup-touched'
+            if out2 != 'pass' and not self.followup_specified:
+                # e.g. a frame reference in CSV form: outside the statement
+                R.unspec += 1
+                return nms, tag + '+followup-unspecified:' + out2
             if out2 != 'pass':
-                self.viol('regenerated-reference-fails:%s:%s:%s' % (
-                    tname, c.cause(x, refs[0], kind), out2),
+                cause = c.cause(x, refs[0], kind)
+                self.viol('regenerated-reference-fails:%s:%s:%s%s' % (
+                    tname, cause, out2,
+                    '' if cause.startswith('dtype[') else self.tail),
                     'regenerated-reference-passes',
                     hist, op, outcome=out2, exception=repr(exc2)[:600],
                     disk=list(disk_after))
@@ -1106,6 +1294,12 @@ class C10(Check):
                       '(flags / main / pytest parser)'),
              ('content', 'regenerate then repeat in normal mode: every '
                          'content x assertion type x kind x route (depth 2)'),
+             ('options', 'regenerate then repeat with the same comparison '
+                         'option: every option alone x contents it can act '
+                         'on x assertion type'),
+             ('names', 'reference-name alphabet: extension case, no '
+                       'extension, two dots, sub-directory, unicode/space, '
+                       'other extensions x assertion type'),
              ('hist2', 'BFS depth 2, full menu, 5 types x 2 routes x 4 start '
                        'tables'),
              ('hist3', 'BFS depth 3')]
@@ -1130,8 +1324,9 @@ class C10(Check):
                            'argv': a}
             for a in argv_space(tier):
                 if '-0' in a or '--istagged' in a or \
-                        any(c in a for c in ('-0W', '-W0')):
-                    continue
+                        any(c in a for c in ('-0W', '-W0')) or \
+                        any(t.startswith('-k') for t in a):
+                    continue      # no test would run (list mode / -k filter)
                 yield {'mode': 'argv', 'route': 'main', 'start': [],
                        'argv': a}
             return
@@ -1154,6 +1349,44 @@ class C10(Check):
                             yield {'mode': 'bfs', 'type': t, 'A': cid,
                                    'B': 'Q', 'via': via, 'start': [],
                                    'depth': 2, 'menu': 'content-full'}
+            return
+        if layer == 'options':
+            for t in TYPES:
+                for opt in option_ids(t):
+                    if opt == 'none':
+                        continue
+                    if t == 'frame':
+                        ids = FRAME_THOROUGH
+                        vias = ('unittest', 'pytest') if tier == 'thorough' \
+                            else ('unittest',)
+                    else:
+                        ids = OPT_CONTENTS if tier != 'thorough' else \
+                            OPT_CONTENTS + [c for c in TEXT_QUICK
+                                            if c not in OPT_CONTENTS]
+                        vias = ('unittest', 'pytest')
+                    for cid in ids:
+                        for via in vias:
+                            yield {'mode': 'bfs', 'type': t, 'A': cid,
+                                   'B': 'Q', 'via': via, 'start': [],
+                                   'depth': 2, 'menu': 'mini', 'opt': opt}
+            return
+        if layer == 'names':
+            for t in TYPES:
+                if t == 'frame':
+                    ids = ['A', 'float-nan', 'cat']
+                elif t == 'binary':
+                    ids = ['A', 'all256']
+                else:
+                    ids = ['A', 'in-ff', 'uni']
+                for variant in name_variants(t):
+                    if variant == 'lower':
+                        continue
+                    for cid in ids:
+                        for via in ('unittest', 'pytest'):
+                            yield {'mode': 'bfs', 'type': t, 'A': cid,
+                                   'B': 'Q', 'via': via, 'start': [],
+                                   'depth': 2, 'menu': 'mini',
+                                   'name': variant}
             return
         if layer in ('hist2', 'hist3', 'hist4'):
             depth = int(layer[-1])
@@ -1243,7 +1476,9 @@ class C10(Check):
         t = case['type']
         via = case['via']
         ex = Explorer(w, R, t, case['A'], case['B'], via,
-                      {'type': t, 'via': via})
+                      {'type': t, 'via': via},
+                      variant=case.get('name', 'lower'),
+                      optid=case.get('opt', 'none'))
         if t in ('string', 'file', 'files'):
             assert spec.text_same(TEXTS[case['A']], TEXTS[case['B']]) is False
         menu = bfs_menu(via)
@@ -1258,6 +1493,12 @@ class C10(Check):
                     if (op[0] == 'set' and op[1] == 'RT' and
                         op[3] != 'default')
                     or op[0] == 'assert' or op in keep]
+        if case['menu'] == 'mini':
+            # [regenerate everything] [assert each kind] (+ follow-up), and
+            # the same assertions in normal mode on absent references
+            menu = [op for op in menu
+                    if op == ['set', 'RT', None, True]
+                    or (op[0] == 'assert' and op[2] == 'A')]
         if case['menu'] == 'content-full':
             # depth 2: [make a kind regenerate] [assert] - every table op and
             # the A-assertions; the follow-up clause runs inside step()
